@@ -160,6 +160,10 @@ func genDestValue(typ *itype, n *node) func(*frame) reflect.Value {
 		return genValueInterface(n)
 	case isNamedFuncSrc(n.typ):
 		return genFunctionWrapper(n)
+	case isFuncSrc(n.typ) && isFuncSrc(typ):
+		// The value may be a declared function (an identifier of function type): it is
+		// wrapped at run time if so.
+		return genFuncValue(n)
 	case isInterfaceBin(typ):
 		return genInterfaceWrapper(n, typ.rtype)
 	case n.kind == basicLit && n.val == nil:
